@@ -4,6 +4,8 @@ package main
 import (
 	"encoding/json"
 	"fmt"
+	"github.com/theparanoids/ysshra/message"
+	"github.com/theparanoids/ysshra/verifharness/lib/msgref"
 	"reflect"
 	"sort"
 	"strings"
@@ -25,17 +27,18 @@ import (
 var defaultExts = map[string]string{"permit-pty": "", "permit-X11-forwarding": "", "permit-agent-forwarding": "", "permit-port-forwarding": "", "permit-user-rc": ""}
 
 type reqRec struct {
-	Conf     string            `json:"handler_configuration_json"`
-	LogName  string            `json:"login_name"`
-	ReqUser  string            `json:"client_user"`
-	ReqHost  string            `json:"client_host"`
-	IP       string            `json:"client_ip"`
-	TransID  string            `json:"transaction_id"`
-	CAAlgo   int               `json:"requested_ca_key_algorithm"`
-	Validity uint64            `json:"configured_validity"`
-	IDs      map[string]string `json:"configured_identifiers"`
-	Result   string            `json:"result"`
-	KeyID    string            `json:"key_id,omitempty"`
+	Conf        string              `json:"handler_configuration_json"`
+	LogName     string              `json:"login_name"`
+	ClientAttrs *message.Attributes `json:"other_client_attributes,omitempty"`
+	ReqUser     string              `json:"client_user"`
+	ReqHost     string              `json:"client_host"`
+	IP          string              `json:"client_ip"`
+	TransID     string              `json:"transaction_id"`
+	CAAlgo      int                 `json:"requested_ca_key_algorithm"`
+	Validity    uint64              `json:"configured_validity"`
+	IDs         map[string]string   `json:"configured_identifiers"`
+	Result      string              `json:"result"`
+	KeyID       string              `json:"key_id,omitempty"`
 }
 
 func main() {
@@ -211,7 +214,20 @@ func one(r *ev.Run, c *ev.Case, i int, mu *sync.Mutex, seenKeys map[string]int) 
 	ag.ResetLog()
 	r.Eval(1)
 	rig.Signer.Scribble = rng.Intn(3) == 0
-	runErr, escaped := gsrig.Run(gsrig.Param(ps), []gensign.Handler{rig.Handler}, rig.Signer)
+	param := gsrig.Param(ps)
+	if rng.Intn(2) == 0 {
+		// whatever else the client put into its message (touchless-sudo hosts and time, firefighter flag, touch-to-ssh,
+		// signature algorithm, interface version, extension map) has no bearing on the signing request
+		a := msgref.Attrs(rng, false)
+		a.Username, a.Hostname, a.SSHClientVersion = ps.ReqUser, ps.ReqHost, "8.1"
+		a.CAPubKeyAlgo, a.HardKey = param.Attrs.CAPubKeyAlgo, false
+		if a.TouchlessSudo == nil && rng.Intn(2) == 0 {
+			a.TouchlessSudo = &message.TouchlessSudo{IsFirefighter: rng.Intn(2) == 0, Hosts: "host1,host2", Time: int64(1 + rng.Intn(30))}
+		}
+		param.Attrs = a
+		rec.ClientAttrs = a
+	}
+	runErr, escaped := gsrig.Run(param, []gensign.Handler{rig.Handler}, rig.Signer)
 	rec.Result = gsrig.Kind(runErr)
 	if escaped != "" {
 		r.Violation(c, gsrig.EscapeSig(escaped), escaped, rec)
